@@ -83,6 +83,9 @@ struct BlockIter {
   int64_t calls = 0;                   // first()/next() calls so far (0-based index of the next call)
   std::set<int64_t> not_ready_at;      // call indices answering ERROR_BLOCK_NOT_READY
   std::set<int> fetch_null;            // blocks whose data cannot be fetched
+  std::map<int, int> nr_target;        // first pass: answer not-ready this many times when block <target> (size() = end) is asked for
+  std::set<int64_t> reiter_nr;         // after the first pass: not-ready at these call ordinals (re-iteration by rule evaluation)
+  int passes = 0; int64_t reiter_calls = 0;
   bool report_size = true;
   int64_t not_ready_fired = 0, fetches = 0, firsts = 0, nexts = 0;
   std::function<void(BlockIter&, int64_t, bool)> on_call;   // (iter, call index, is_first)
